@@ -24,3 +24,13 @@ Definition run_c12y_classes (F : opts) (rep : bool) (vs : list value) : sx :=
 
 (* the text handed to the hasher for a leaf *)
 Definition run_c12y_text (F : opts) (a : atom) : sx := sx_str (yh_text F a).
+
+(* booleans as one character each (probes of the harness) *)
+Definition run_c12y_flags (l : list bool) : string := run_c12_guards l.
+(* does the diff-side model (Options/YModel.v) follow the /repo fix c9e614d - a None-valued Enum member
+   facing None under use_enum_value is not reported? *)
+Definition probe_none_member_fixed : bool :=
+  match ydiff_verdict (fun _ _ => []) (mkCfg false 33 100 true)
+          (mkOpts false false false None None [] None 0%Z false true false)
+          (VAtom (AEnum (s2p "E4") (s2p "N") 0 ENone)) (VAtom ANone) with
+  | YEmpty => true | _ => false end.
